@@ -1227,7 +1227,8 @@ def symmetry_sectors(cx):
                     H = mkH(hs_kw)
                     R = sector_ref()
                     x = xs[: R.shape[0]].copy()
-                    for par in (False, 2, 3):
+                    # (no worker threads in the forked child: a thread pool does not survive fork)
+                    for par in ((False, 2, 3) if tw else (False,)):
                         e = close(H.matvec(x, parallel=par, **call_kw), R @ x, f"matvec(sector, parallel={par})")
                         if e:
                             return e
@@ -1239,9 +1240,382 @@ def symmetry_sectors(cx):
                 if tw:
                     return body()
                 # single terms leave the sector: the kernels may index out of bounds -> evaluate in a forked child
-                st_, val = _forked(body, timeout=60)
+                st_, val = _forked(body, timeout=20)
                 if st_ == "ok":
                     return val
                 return f"matvec in a sector (evaluated in a forked child): {st_} {val}"
 
             cx.check("sector matvec / aslinearoperator == full reference between the sector's basis states", p, t_mv)
+
+
+# ----------------------------------------------------------------------------------------------
+# driver 4: model builders of quimb/operator/models.py vs the model formula
+# ----------------------------------------------------------------------------------------------
+
+def _light_checks(cx, name, params, getH, ref, regs, sector_checks=()):
+    """a reduced set of representation contracts for a builder produced by a model function.
+    ref: callable -> full reference matrix; sector_checks: list of (json, call_kwargs, index-callable)"""
+    n = len(regs)
+    reg_of = {s: r for r, s in enumerate(regs)}
+
+    def t_dense():
+        H = getH()
+        if list(H.hilbert_space.sites) != list(regs):
+            return f"site order {H.hilbert_space.sites} != expected {regs}"
+        R = ref()
+        A = H.build_dense()
+        e = close(A, R, "build_dense") or real_if_real_dtype(A, R, "build_dense")
+        if e:
+            return e
+        for st in ("csr", "coo", "dia"):
+            e = close(H.build_sparse_matrix(stype=st), R, f"build_sparse_matrix({st})")
+            if e:
+                return e
+        return close(H.build_matrix_ikron(), R, "build_matrix_ikron")
+
+    cx.check(f"{name}: build_dense / build_sparse_matrix / build_matrix_ikron == model formula", params, t_dense)
+
+    def t_mv():
+        H = getH()
+        R = ref()
+        x = np.cos(np.arange(2 ** n) * 1.7) + 1j * np.sin(np.arange(2 ** n) * 0.3)
+        for par in (False, 2):
+            e = close(H.matvec(x, parallel=par), R @ x, f"matvec(parallel={par})")
+            if e:
+                return e
+        return close(H.aslinearoperator(dtype="complex128") @ x, R @ x, "aslinearoperator @ x")
+
+    cx.check(f"{name}: matvec / aslinearoperator == model formula @ x", params, t_mv)
+
+    def t_mpo():
+        return close(getH().build_mpo().to_dense(), ref(), "build_mpo().to_dense()")
+
+    cx.check(f"{name}: build_mpo().to_dense() == model formula", params, t_mpo)
+
+    def t_loc():
+        R = ref()
+        tot = np.zeros_like(R)
+        for key, M in getH().build_local_terms().items():
+            tot = tot + embed(M, [reg_of[s] for s in key], n)
+        return close(tot, R, "sum of embedded local terms")
+
+    cx.check(f"{name}: sum of build_local_terms embedded == model formula", params, t_loc)
+
+    for sdesc, call_kw, index in sector_checks:
+        tw = dict(params, **sdesc).get("termwise_symmetric", True)
+
+        def t_sec(call_kw=call_kw, index=index, tw=tw):
+            H = getH()
+            idx = index()
+            R = ref()[np.ix_(idx, idx)]
+            e = close(H.build_dense(**call_kw), R, "build_dense(sector)")
+            if e:
+                return e
+            e = close(H.build_sparse_matrix(stype="csc", **call_kw), R, "build_sparse_matrix(sector)")
+            if e:
+                return e
+            x = np.cos(np.arange(len(idx)) * 1.3) + 0.5j
+            if tw:
+                return close(H.matvec(x, **call_kw), R @ x, "matvec(sector)")
+            # single terms leave the sector: the kernel may write out of bounds -> forked child
+            st_, val = _forked(lambda: close(H.matvec(x, **call_kw), R @ x, "matvec(sector)"), timeout=20)
+            return val if st_ == "ok" else f"matvec in a sector (evaluated in a forked child): {st_} {val}"
+
+        cx.check(f"{name}: sector matrix / matvec == model formula between the sector's basis states", dict(params, **sdesc),
+                 t_sec)
+
+
+def _rand_graph(rng, nodes, extra_dupes=True):
+    """random connected-ish edge list over `nodes` with duplicated and reversed entries"""
+    n = len(nodes)
+    pairs = [(a, b) for a, b in itertools.combinations(range(n), 2)]
+    m = int(rng.integers(max(1, n - 1), max(2, min(len(pairs), n + 2)) + 1)) if pairs else 0
+    chosen = [pairs[int(i)] for i in rng.choice(len(pairs), size=min(m, len(pairs)), replace=False)] if pairs else []
+    # make sure every node is touched
+    touched = {a for e in chosen for a in e}
+    for a in range(n):
+        if a not in touched and n > 1:
+            b = (a + 1) % n
+            chosen.append((min(a, b), max(a, b)))
+            touched |= {a, b}
+    chosen = sorted(set(chosen))
+    edges = []
+    for a, b in chosen:
+        e = (nodes[a], nodes[b]) if rng.integers(0, 2) else (nodes[b], nodes[a])
+        edges.append(e)
+        if extra_dupes and rng.integers(0, 4) == 0:
+            edges.append((e[1], e[0]) if rng.integers(0, 2) else e)
+    uniq = sorted({(min(a, b), max(a, b)) for a, b in edges})
+    return [edges[int(i)] for i in rng.permutation(len(edges))], uniq
+
+
+def _coef_forms(rng, kind, keys, draw):
+    """a coefficient given as constant / dict / callable; returns (argument, lookup(key))"""
+    vals = {k: draw() for k in keys}
+    form = ("const", "dict", "callable")[int(rng.integers(0, 3))]
+    if form == "const":
+        v = draw()
+        return v, (lambda k: v), form
+    if kind == "edge":
+        d = {}
+        for (a, b), v in vals.items():
+            d[(a, b) if rng.integers(0, 2) else (b, a)] = v
+        if form == "dict":
+            return d, (lambda k: vals[k]), form
+        return (lambda a, b: vals[(min(a, b), max(a, b))]), (lambda k: vals[k]), form
+    if form == "dict":
+        return dict(vals), (lambda k: vals[k]), form
+    return (lambda a: vals[a]), (lambda k: vals[k]), form
+
+
+@driver("C19", "model-builders", chunks=6, timeout=200,
+        bound="heisenberg_from_edges / fermi_hubbard_from_edges / fermi_hubbard_spinless_from_edges / rand_operator on random "
+              "graphs with 2..6 qubits (thorough ..8), int / string / coordinate labels, duplicated and reversed edges, "
+              "couplings as constants / tuples / dicts / callables, every order option, symmetry sectors where the model is "
+              "symmetric, with / without Pauli decomposition: representations vs the model formula written with explicit "
+              "Kronecker products and Jordan-Wigner strings")
+def model_builders(cx):
+    import quimb.operator as qop
+    from quimb.operator import HilbertSpace
+
+    rng = cx.rng
+    ncases = 30 if cx.quick else 240
+    for i in range(ncases * cx.nchunks):
+        if not cx.mine():
+            continue
+        if cx.out_of_time():
+            cx.inconclusive.append("model-builders: time budget exhausted")
+            return
+        model = ("heis", "hubbard", "spinless", "rand")[i % 4]
+        lab = ("range", "ints", "str", "coo")[int(rng.integers(0, 4))]
+        rnd = lambda: float(np.round(rng.normal(), 3)) or 0.25  # noqa: E731
+        if model == "heis":
+            n = int(rng.integers(2, 7 if cx.quick else 9))
+            nodes = sorted(make_sites(rng, n, lab))
+            edges, uniq = _rand_graph(rng, nodes)
+            jkind = int(rng.integers(0, 3))  # 0 isotropic scalar, 1 (jx,jx,jz), 2 (jx,jy,jz)
+            jdraw = (rnd if jkind == 0 else (lambda: (lambda a: (a, a, rnd()))(rnd())) if jkind == 1 else
+                     (lambda: (rnd(), rnd(), rnd())))
+            jarg, jget, jform = _coef_forms(rng, "edge", uniq, jdraw)
+            bkind = int(rng.integers(0, 3))  # 0 zero, 1 z-field scalar, 2 vector
+            bdraw = (lambda: 0.0) if bkind == 0 else rnd if bkind == 1 else (lambda: (rnd(), rnd(), rnd()))
+            barg, bget, bform = _coef_forms(rng, "node", nodes, bdraw)
+            okind = ("none", "seq", "key")[int(rng.integers(0, 3))]
+            order_arg, regs = apply_order(rng, nodes, okind)
+            reg_of = {s: r for r, s in enumerate(regs)}
+            use_hs = bool(rng.integers(0, 4) == 0)
+            sym_u1 = jkind in (0, 1) and bkind in (0, 1)
+            sym_z2 = bkind in (0, 1)
+            params = dict(i=i, model=model, n=n, labels=lab, j=jform, jkind=jkind, b=bform, bkind=bkind, order=okind,
+                          hilbert_space_given=use_hs)
+
+            def ref(uniq=uniq, nodes=nodes, jget=jget, bget=bget, reg_of=reg_of, n=n):
+                terms = []
+                for e in uniq:
+                    jj = jget(e)
+                    jx, jy, jz = jj if isinstance(jj, tuple) else (jj, jj, jj)
+                    terms += [(jx, [("sx", e[0]), ("sx", e[1])]), (jy, [("sy", e[0]), ("sy", e[1])]),
+                              (jz, [("sz", e[0]), ("sz", e[1])])]
+                for s in nodes:
+                    bb = bget(s)
+                    bx, by, bz = bb if isinstance(bb, tuple) else (0.0, 0.0, bb)
+                    terms += [(-bx, [("sx", s)]), (-by, [("sy", s)]), (-bz, [("sz", s)])]
+                return ref_matrix(terms, reg_of, n)
+
+            def getH(edges=edges, jarg=jarg, barg=barg, order_arg=order_arg, nodes=nodes, use_hs=use_hs):
+                if use_hs:
+                    return qop.heisenberg_from_edges(edges, j=jarg, b=barg, hilbert_space=HilbertSpace(nodes, order=order_arg))
+                return qop.heisenberg_from_edges(edges, j=jarg, b=barg, order=order_arg)
+
+            secs = []
+            if sym_u1:
+                k = int(rng.integers(0, n + 1))
+                secs.append((dict(sector=k, symmetry="U1"), dict(sector=k, symmetry="U1"),
+                             lambda k=k, nodes=nodes, order_arg=order_arg, regs=regs: _sector_index(
+                                 HilbertSpace, nodes, order_arg, regs, dict(sector=k, symmetry="U1"))))
+            if sym_z2:
+                p = ("even", "odd")[int(rng.integers(0, 2))]
+                secs.append((dict(sector=p, symmetry="Z2"), dict(sector=p),
+                             lambda p=p, nodes=nodes, order_arg=order_arg, regs=regs: _sector_index(
+                                 HilbertSpace, nodes, order_arg, regs, dict(sector=p))))
+            ctx = {}
+            _light_checks(cx, "heisenberg_from_edges", params,
+                          lambda ctx=ctx, getH=getH: ctx.setdefault("H", None) or ctx.__setitem__("H", getH()) or ctx["H"],
+                          lambda ctx=ctx, ref=ref: ctx["R"] if "R" in ctx else ctx.setdefault("R", ref()), regs, secs)
+            # the sector handed to the model function itself
+            if sym_u1:
+                k2 = int(rng.integers(0, n + 1))
+
+                def t_ctor(edges=edges, jarg=jarg, barg=barg, order_arg=order_arg, k2=k2, ref=ref, nodes=nodes, regs=regs):
+                    H = qop.heisenberg_from_edges(edges, j=jarg, b=barg, order=order_arg, sector=k2, symmetry="U1")
+                    idx = _sector_index(HilbertSpace, nodes, order_arg, regs, dict(sector=k2))
+                    if int(H.hilbert_space.size) != len(idx):
+                        return f"hilbert_space.size {H.hilbert_space.size} != {len(idx)}"
+                    return close(H.build_dense(), ref()[np.ix_(idx, idx)], "build_dense() in the model's default sector")
+
+                cx.check("heisenberg_from_edges(sector=k): default build is the U1 sector matrix", dict(params, sector=k2), t_ctor)
+
+        elif model in ("hubbard", "spinless"):
+            nc = int(rng.integers(2, 4 if cx.quick else 5)) if model == "hubbard" else int(rng.integers(2, 7 if cx.quick else 9))
+            coos = sorted(make_sites(rng, nc, lab))
+            edges, uniq = _rand_graph(rng, coos)
+            pauli = bool(rng.integers(0, 4) == 0)
+            if model == "hubbard":
+                tkind = int(rng.integers(0, 2))
+                tdraw = rnd if tkind == 0 else (lambda: (rnd(), rnd()))
+                targ, tget, tform = _coef_forms(rng, "edge", uniq, tdraw)
+                Uarg, Uget, Uform = _coef_forms(rng, "node", coos, rnd)
+                mkind = int(rng.integers(0, 3))
+                mdraw = (lambda: 0.0) if mkind == 0 else rnd if mkind == 1 else (lambda: (rnd(), rnd()))
+                marg, mget, mform = _coef_forms(rng, "node", coos, mdraw)
+                sites = [(s, c) for s in "↑↓" for c in coos]
+                okind = ("default", "interleaved", "blocked", "none", "seq", "key")[int(rng.integers(0, 6))]
+                if okind == "default":
+                    order_arg, regs = "interleaved", sorted(sites, key=lambda s: (s[1:], s[0]))
+                else:
+                    order_arg, regs = apply_order(rng, sites, okind)
+                reg_of = {s: r for r, s in enumerate(regs)}
+                n = len(regs)
+                params = dict(i=i, model=model, n=n, labels=lab, t=tform, tkind=tkind, U=Uform, mu=mform, mukind=mkind,
+                              order=okind, pauli=pauli, termwise_symmetric=not pauli)
+
+                def ref(uniq=uniq, coos=coos, tget=tget, Uget=Uget, mget=mget, reg_of=reg_of, n=n):
+                    terms = []
+                    for a, b in uniq:
+                        tt = tget((a, b))
+                        tu, td = tt if isinstance(tt, tuple) else (tt, tt)
+                        for s, tv in (("↑", tu), ("↓", td)):
+                            terms += [(-tv, [("+", (s, a)), ("-", (s, b))]), (-tv, [("+", (s, b)), ("-", (s, a))])]
+                    for c in coos:
+                        terms.append((Uget(c), [("n", ("↑", c)), ("n", ("↓", c))]))
+                        mm = mget(c)
+                        mu_, md_ = mm if isinstance(mm, tuple) else (mm, mm)
+                        terms += [(-mu_, [("n", ("↑", c))]), (-md_, [("n", ("↓", c))])]
+                    return ref_matrix(terms, reg_of, n, jw=True)
+
+                def getH(edges=edges, targ=targ, Uarg=Uarg, marg=marg, order_arg=order_arg, okind=okind, pauli=pauli, **kw):
+                    okw = {} if okind == "default" else dict(order=order_arg)
+                    return qop.fermi_hubbard_from_edges(edges, t=targ, U=Uarg, mu=marg, pauli_decompose=pauli, **okw, **kw)
+
+                hs_kw = dict(species=_species_of)
+                ka, kb = int(rng.integers(0, nc + 1)), int(rng.integers(0, nc + 1))
+                form = ("dict", "tuple", "explicit")[int(rng.integers(0, 3))]
+                sec = {"↑": ka, "↓": kb} if form == "dict" else (ka, kb) if form == "tuple" else ((nc, ka), (nc, kb))
+                ktot = int(rng.integers(0, n + 1))
+                secs = [
+                    (dict(sector=[ka, kb], form=form, symmetry="U1U1"), dict(sector=sec),
+                     lambda sec=sec, sites=sites, order_arg=order_arg, regs=regs: _sector_index(
+                         HilbertSpace, sites, order_arg, regs, dict(species=_species_of, sector=sec))),
+                    (dict(sector=ktot, symmetry="U1"), dict(sector=ktot),
+                     lambda ktot=ktot, sites=sites, order_arg=order_arg, regs=regs: _sector_index(
+                         HilbertSpace, sites, order_arg, regs, dict(sector=ktot))),
+                ]
+                name = "fermi_hubbard_from_edges"
+                sector_ctor = dict(sector=sec)
+                ctor_index = secs[0][2]
+            else:
+                targ, tget, tform = _coef_forms(rng, "edge", uniq, rnd)
+                Varg, Vget, Vform = _coef_forms(rng, "edge", uniq, rnd)
+                marg, mget, mform = _coef_forms(rng, "node", coos, rnd)
+                has_delta = bool(rng.integers(0, 2))
+                darg, dget, dform = _coef_forms(rng, "edge", uniq, rnd if has_delta else (lambda: 0.0))
+                sites = list(coos)
+                okind = ("none", "seq", "key")[int(rng.integers(0, 3))]
+                order_arg, regs = apply_order(rng, sites, okind)
+                reg_of = {s: r for r, s in enumerate(regs)}
+                n = len(regs)
+                params = dict(i=i, model=model, n=n, labels=lab, t=tform, V=Vform, mu=mform, delta=dform if has_delta else "0",
+                              order=okind, pauli=pauli, termwise_symmetric=not pauli)
+
+                def ref(uniq=uniq, coos=coos, tget=tget, Vget=Vget, mget=mget, dget=dget, reg_of=reg_of, n=n):
+                    terms = []
+                    for a, b in uniq:
+                        e = (a, b)
+                        terms += [(-tget(e), [("+", a), ("-", b)]), (-tget(e), [("+", b), ("-", a)]),
+                                  (Vget(e), [("n", a), ("n", b)]),
+                                  (dget(e), [("+", a), ("+", b)]), (dget(e), [("-", b), ("-", a)])]
+                    for c in coos:
+                        terms.append((-mget(c), [("n", c)]))
+                    return ref_matrix(terms, reg_of, n, jw=True)
+
+                def getH(edges=edges, targ=targ, Varg=Varg, marg=marg, darg=darg, order_arg=order_arg, pauli=pauli, **kw):
+                    return qop.fermi_hubbard_spinless_from_edges(edges, t=targ, V=Varg, mu=marg, delta=darg, order=order_arg,
+                                                                 pauli_decompose=pauli, **kw)
+
+                p = ("even", "odd")[int(rng.integers(0, 2))]
+                secs = [(dict(sector=p, symmetry="Z2", termwise_symmetric=True), dict(sector=p),
+                         lambda p=p, sites=sites, order_arg=order_arg, regs=regs: _sector_index(
+                             HilbertSpace, sites, order_arg, regs, dict(sector=p)))]
+                sector_ctor = dict(sector=p)
+                ctor_index = secs[0][2]
+                if not has_delta:
+                    k = int(rng.integers(0, n + 1))
+                    secs.append((dict(sector=k, symmetry="U1"), dict(sector=k, symmetry="U1"),
+                                 lambda k=k, sites=sites, order_arg=order_arg, regs=regs: _sector_index(
+                                     HilbertSpace, sites, order_arg, regs, dict(sector=k))))
+                name = "fermi_hubbard_spinless_from_edges"
+            ctx = {}
+            R0 = None
+            # does the Pauli-decomposed operator have an identity component?  (independent: trace of the reference)
+            params["identity_term"] = bool(pauli and abs(np.trace(ref())) / 2 ** n > 1e-9)
+            _light_checks(cx, name, params,
+                          lambda ctx=ctx, getH=getH: ctx["H"] if "H" in ctx else ctx.setdefault("H", getH()),
+                          lambda ctx=ctx, ref=ref: ctx["R"] if "R" in ctx else ctx.setdefault("R", ref()), regs, secs)
+
+            def t_ctor(getH=getH, sector_ctor=sector_ctor, ctor_index=ctor_index, ref=ref):
+                H = getH(**sector_ctor)
+                idx = ctor_index()
+                if int(H.hilbert_space.size) != len(idx):
+                    return f"hilbert_space.size {H.hilbert_space.size} != {len(idx)}"
+                return close(H.build_dense(), ref()[np.ix_(idx, idx)], "build_dense() in the model's default sector")
+
+            cx.check(f"{name}(sector=...): default build is the sector matrix",
+                     dict(params, sector=str(sector_ctor["sector"]),
+                          termwise_symmetric=bool(not pauli or model == "spinless")), t_ctor)
+        else:
+            n = int(rng.integers(1, 7))
+            m = int(rng.integers(1, 7))
+            k = int(rng.integers(0, min(n, 4) + 1))
+            kmin = None if rng.integers(0, 2) else int(rng.integers(0, k + 1))
+            ops = (None, "xyz", "+-n", "xyzn+-", "Ixz")[int(rng.integers(0, 5))]
+            seed = int(rng.integers(0, 1000))
+            params = dict(i=i, model=model, n=n, m=m, k=k, kmin=kmin, ops=str(ops), seed=seed, default_ops=ops is None)
+            regs = list(range(n))
+
+            def getR(n=n, m=m, k=k, kmin=kmin, ops=ops, seed=seed):
+                kw = {} if ops is None else dict(ops=ops)
+                return qop.rand_operator(n, m, k, kmin=kmin, seed=seed, **kw)
+
+            def t_struct(getR=getR, n=n, m=m, k=k, kmin=kmin, ops=ops):
+                H = getR()
+                raw = H.terms_raw
+                if len(raw) > m:
+                    return f"{len(raw)} raw terms > m={m}"
+                allowed = set(ops) if ops is not None else {"x", "y", "z"}
+                for c, t in raw:
+                    ss = [s for _, s in t]
+                    if len(set(ss)) != len(ss) or not all(0 <= s < n for s in ss):
+                        return f"term sites {ss}"
+                    if not ((k if kmin is None else kmin) <= len(t) <= k):
+                        return f"term of {len(t)} operators, allowed {kmin}..{k}"
+                    if not {o for o, _ in t} <= allowed:
+                        return f"operators {[o for o, _ in t]} not in {allowed}"
+                if H.nsites != n:
+                    return f"nsites {H.nsites} != {n}"
+                return None
+
+            cx.check("rand_operator: m terms of kmin..k operators from `ops` on distinct sites of range(n)", params, t_struct)
+            if ops is not None:
+                ctx = {}
+
+                def getH(ctx=ctx, getR=getR):
+                    if "H" not in ctx:
+                        ctx["H"] = getR()
+                    return ctx["H"]
+
+                def ref(getH=getH, n=n):
+                    # the meaning of the builder's own raw term list (read through the public terms_raw)
+                    return ref_matrix([(c, list(t)) for c, t in getH().terms_raw], {s: s for s in range(n)}, n)
+
+                params["identity_term"] = bool((kmin == 0) or k == 0 or "I" in ops)
+                _light_checks(cx, "rand_operator", params, getH, ref, regs)
